@@ -599,9 +599,29 @@ func c09Gen(c *Ctx) {
 		default: // a symbol outside the alphabet / another byte
 			switch m.kind {
 			case 1:
-				msg[pos] = []byte("!*-_ \x00\xff")[t.R.Intn(7)]
+				// any byte outside the standard base64 alphabet; half of the time a single-bit neighbour of the original
+				for {
+					b := byte(t.R.Intn(256))
+					if t.R.Intn(2) == 0 {
+						b = msg[pos] ^ (1 << uint(t.R.Intn(8)))
+					}
+					if !(b >= '0' && b <= '9' || b >= 'a' && b <= 'z' || b >= 'A' && b <= 'Z' || b == '+' || b == '/' || b == '=') {
+						msg[pos] = b
+						break
+					}
+				}
 			case 3:
-				msg[pos] = []byte("gG xz\x00\xff")[t.R.Intn(7)]
+				// any byte that is not a hex digit; half of the time a single-bit neighbour of the original digit
+				for {
+					b := byte(t.R.Intn(256))
+					if t.R.Intn(2) == 0 {
+						b = msg[pos] ^ (1 << uint(t.R.Intn(8)))
+					}
+					if !(b >= '0' && b <= '9' || b >= 'a' && b <= 'f' || b >= 'A' && b <= 'F') {
+						msg[pos] = b
+						break
+					}
+				}
 			default:
 				msg[pos] = byte(int(msg[pos]) + 1 + t.R.Intn(255))
 			}
